@@ -2,7 +2,7 @@ SPECIFICATION EnumSpec
 CONSTANTS
   Minerals = {"a", "b", "c", "d"}
   Files = {"f1"}
-  Postfixes = {"1", "10", "q"}
+  Postfixes <- PfFamilyQ
   Configs = {}
   Seeds = {}
   Textures = {}
